@@ -315,6 +315,18 @@ def monitors_norm(rep, rng, x, X):
     if np.max(np.abs(nc - abs(c) * nrm)) > 1e-9 * max(1.0, np.max(nrm)):
         rep.violation("norm is not absolutely homogeneous", {"x": C.hexf(x), "X": C.hexf(X), "c": c})
     from FDApy.misc.utils import _integrate
+    for meth in ("trapz", "simpson"):
+        # the grid in other units (times 2^-30, exact): the integral scales with the unit
+        try:
+            i1, i2 = float(_integrate(X[0], x, method=meth)), float(_integrate(X[0], x * 2.0 ** -30, method=meth))
+            if abs(i2 - 2.0 ** -30 * i1) > 1e-12 * 2.0 ** -30 * max(1.0, float(np.ptp(x))) * max(1.0, float(np.max(np.abs(X[0])))):
+                rep.violation(f"integration ({meth}): the integral over the grid times 2^-30 is not 2^-30 times the integral",
+                              {"x": C.hexf(x), "y": C.hexf(X[0]), "int": i1, "int_small_grid": i2})
+        except Exception as e:  # noqa: BLE001
+            rep.violation(f"_integrate({meth}) raised {type(e).__name__}: {e} on a grid in small units"[:200], {"x": C.hexf(x * 2.0 ** -30)})
+    nsm = fd.dense(x * 2.0 ** -30, X).norm(squared=True)
+    if np.max(np.abs(nsm - 2.0 ** -30 * nrm ** 2)) > 1e-9 * 2.0 ** -30 * max(1.0, float(np.max(nrm ** 2))):
+        rep.violation("squared norm on the grid times 2^-30 is not 2^-30 times the squared norm", {"x": C.hexf(x), "X": C.hexf(X)})
     for k2 in (24, 48):
         # a power of two scales every intermediate of the quadrature exactly: small curves are as homogeneous as large ones
         c2 = 2.0 ** (-k2)
